@@ -570,6 +570,23 @@ impl Context {
                     true,
                 )
             }
+            // a string constant as the default of a field whose Rust type was chosen with
+            // pilota.rust_type ("string", "vec") or that is `binary`
+            (CodegenTy::Str, CodegenTy::String) => {
+                let stream = self.cur_related_item_path(did);
+                (format!("{stream}.to_string()").into(), false)
+            }
+            (CodegenTy::Str, CodegenTy::Bytes) => {
+                let stream = self.cur_related_item_path(did);
+                (
+                    format!("::pilota::Bytes::from_static({stream}.as_bytes())").into(),
+                    true,
+                )
+            }
+            (CodegenTy::Str, CodegenTy::Vec(inner)) if **inner == CodegenTy::U8 => {
+                let stream = self.cur_related_item_path(did);
+                (format!("{stream}.as_bytes().to_vec()").into(), false)
+            }
             (
                 CodegenTy::Adt(AdtDef {
                     did: _,
